@@ -344,6 +344,14 @@ def run(prop, a, seed, scratch, t_start):
         solver_s += stt.get("runtime_solver_s", 0) or 0
         symex_s += stt.get("runtime_symex_s", 0) or 0
         vccs += stt.get("vccs_generated", 0) or 0
+        af = byname[h].allowed_fail
+        if af:
+            hit = [x for x in v if re.search(af, x["description"])]
+            v = [x for x in v if not re.search(af, x["description"])]
+            if not hit:
+                incon.append(f"{h}: the documented panic ({af}) was not reached")
+            if r["status"] != "Success" and not v:
+                inc = [i for i in inc if not i.startswith("vacuity:")]
         mine = [x for x in v if prop in x["tags"]]
         others = [x for x in v if prop not in x["tags"]]
         expect_fail = byname[h].expect_fail
